@@ -264,6 +264,7 @@ class Tr:
         self.consts = consts; self.sizes = sizes
         self.free = []          # (name, lean type) in order of first appearance
         self.locals = dict(locals_ or {})   # name -> lean type of variables bound inside
+        self.opaque = False     # site option: calls with arguments become free variables
         self.byte_ptr = None    # name of the `const unsigned char*` parameter, if any
         self.cur_byte = None    # Lean name standing for *p inside a string-walk loop
 
@@ -304,9 +305,34 @@ class Tr:
             return "true" if v else "false"
         return f"{int(v) % (1 << w)}#{w}"
 
+    def opaque_call(self, n, inner):
+        """site option "opaque": a call with arguments (convertor(p->f), f<T>::g(x), ...) is not
+        looked into; it becomes a free variable named after callee and arguments, typed by the
+        call's result type, so that the conversions *around* the call are still translated."""
+        def leaf(x):
+            nm = ""
+            for y in walk(x):
+                if y.get("kind") == "MemberExpr" and y.get("name"):
+                    if y["name"].startswith("operator"):
+                        continue
+                    nm = y["name"]; break
+                if y.get("kind") == "DeclRefExpr":
+                    r = y.get("referencedDecl", {}).get("name", "")
+                    if r and not r.startswith("operator"):
+                        nm = r; break
+            return nm
+        parts = [leaf(c) for c in inner]
+        parts = [p for p in parts if p]
+        ct = ctype(n)
+        if ct[0] == "ptr":
+            raise Broken("pointer-valued opaque call")
+        return self.fv("_".join(parts) or "call", lean_ty(ct))
+
     def expr(self, n):
         k = n["kind"]
         inner = [c for c in n.get("inner", []) if not c.get("kind", "").endswith("Comment")]
+        if self.opaque and (k == "CXXOperatorCallExpr" or (k in ("CallExpr", "CXXMemberCallExpr") and len(inner) > 1)):
+            return self.opaque_call(n, inner)
         if k in ("ParenExpr", "ExprWithCleanups", "MaterializeTemporaryExpr", "CXXBindTemporaryExpr",
                  "ConstantExpr", "SubstNonTypeTemplateParmExpr"):
             return self.expr(inner[-1])
@@ -812,6 +838,12 @@ def find_function(docs, spec):
         elif "spec_of" in spec:
             # explicit specialisation of a struct template: match the record's printed arg
             pass
+        if "fn_targs" in spec:
+            # instantiation of a member/function template: match its own template arguments
+            fa = [re.sub(r"^ELFIO::", "", a.get("type", {}).get("qualType", ""))
+                  for a in n.get("inner", []) if a.get("kind") == "TemplateArgument"]
+            if fa[:len(spec["fn_targs"])] != spec["fn_targs"]:
+                continue
         qt = n.get("type", {}).get("qualType", "")
         if "<dependent type>" in json.dumps(n)[:200000] and "targs" not in spec and "<dependent type>" in json.dumps(n):
             continue
@@ -940,6 +972,21 @@ def select0(fn, sel):
                     return strip_comments(n)[0]
                 i += 1
         raise Broken(f"dereference #{nth} not found")
+    if kind == "ptroffpm":
+        # integer operand of the N-th pointer addition `p + e` / `e + p` / `p - e`
+        nth = int(arg or 0); i = 0
+        for n in walk(body):
+            if n.get("kind") == "BinaryOperator" and n.get("opcode") in ("+", "-"):
+                q = n.get("type", {}).get("qualType", "")
+                if q.strip().endswith("*"):
+                    ops = strip_comments(n)
+                    ints = [o for o in ops if not o.get("type", {}).get("qualType", "").strip().endswith("*")]
+                    if len(ints) != 1:
+                        continue
+                    if i == nth:
+                        return ints[0]
+                    i += 1
+        raise Broken(f"pointer offset #{nth} not found")
     if kind == "callarg":
         callee, _, rest = arg.partition("#"); nth, _, argi = rest.partition("."); nth = int(nth or 0); argi = int(argi or 0); i = 0
         for n in walk(body):
@@ -963,6 +1010,7 @@ def translate_site(site, consts, sizes, key):
     fn = find_function(docs, site)
     tr = Tr(consts, sizes)
     tr.null_style = site.get("null_style", "nonnull")
+    tr.opaque = bool(site.get("opaque"))
     params = []
     for p in fn.get("inner", []):
         if p.get("kind") == "ParmVarDecl":
@@ -977,7 +1025,7 @@ def translate_site(site, consts, sizes, key):
                     params.append((lname(p["name"]), "List (BitVec 8)"))
                     tr.locals[lname(p["name"])] = "List (BitVec 8)"
             elif ct:
-                params.append((lname(p["name"]), lean_ty(ct)))
+                params.append((lname(p.get("name") or f"unnamed{len(params)}"), lean_ty(ct)))
     node = select(fn, site.get("select", "function"))
     if site.get("select", "function") == "function":
         for nme, ty in params:
@@ -1021,7 +1069,7 @@ def translate_site(site, consts, sizes, key):
     sig = " ".join(f"({n} : {t})" for n, t in allp)
     src = f"{fn.get('loc', {}).get('line', fn.get('range', {}).get('begin', {}).get('line', '?'))}"
     txt = (f"/-- from `{site['filter']}` {site.get('targs', site.get('record', ''))} "
-           f"`{site['name']}` [{site.get('select', 'function')}] -/\n"
+           f"`{site['name']}`{''.join(' <' + t + '>' for t in site.get('fn_targs', []))} [{site.get('select', 'function')}] -/\n"
            f"def {site['lean']} {sig} : {rty} :=\n" + indent(body) + "\n")
     return txt
 
